@@ -740,3 +740,55 @@ func post_decodeHeader_length(rdr Reader, res1 uint32, res3 error) bool {
 	}
 	return ok && res1 == v
 }
+
+// ---------------------------------------------------------------------------------------------------------
+// 3.8 SUBSCRIBE / 3.10 UNSUBSCRIBE as encoded (the broker itself never emits them; clients and the tests do):
+// packet identifier, then per entry the topic filter string [and the requested QoS byte]. The loops are explored
+// for up to two entries (stated bounded); layout per MQTT 3.1.1, flags from the header.
+func specSubscribeLen(ts []TopicQOSTuple, extra int) int {
+	n := 2
+	if len(ts) >= 1 {
+		n += 2 + len(ts[0].Topic) + extra
+	}
+	if len(ts) >= 2 {
+		n += 2 + len(ts[1].Topic) + extra
+	}
+	return n
+}
+func pre_tuples(ts []TopicQOSTuple) bool {
+	return len(ts) <= 2 && (len(ts) < 1 || len(ts[0].Topic) <= 1000) && (len(ts) < 2 || len(ts[1].Topic) <= 1000)
+}
+func specTupleAt(b []byte, at int, t TopicQOSTuple, withQos bool) bool { // entry t is encoded at b[at:]
+	return specU16(b, at) == uint16(len(t.Topic)) && vs.Forall(0, len(t.Topic), func(i int) bool { return b[at+2+i] == t.Topic[i] }) &&
+		(!withQos || b[at+2+len(t.Topic)] == t.Qos)
+}
+
+// @ verify (*Subscribe).EncodeTo pre=pre_Subscribe_EncodeTo post=post_Subscribe_EncodeTo props=C16
+// @ loop (*Subscribe).EncodeTo 0 unroll 2 bounded
+func pre_Subscribe_EncodeTo(s *Subscribe, w io.Writer) bool {
+	return s != nil && w != nil && s.Header.QOS < 4 && pre_tuples(s.Subscriptions)
+}
+func post_Subscribe_EncodeTo(s *Subscribe, w io.Writer, res0 int, res1 error) bool {
+	b := vs.TraceBytes(0, 1)
+	n := specSubscribeLen(s.Subscriptions, 1)
+	at := specBodyAt(n)
+	ts := s.Subscriptions
+	return specOneWrite(res0, res1) && specPacketHead(b, TypeOfSubscribe, &s.Header, n) && specU16(b, at) == s.MessageID &&
+		(len(ts) < 1 || specTupleAt(b, at+2, ts[0], true)) &&
+		(len(ts) < 2 || specTupleAt(b, at+2+2+len(ts[0].Topic)+1, ts[1], true))
+}
+
+// @ verify (*Unsubscribe).EncodeTo pre=pre_Unsubscribe_EncodeTo post=post_Unsubscribe_EncodeTo props=C16
+// @ loop (*Unsubscribe).EncodeTo 0 unroll 2 bounded
+func pre_Unsubscribe_EncodeTo(u *Unsubscribe, w io.Writer) bool {
+	return u != nil && w != nil && u.Header.QOS < 4 && pre_tuples(u.Topics)
+}
+func post_Unsubscribe_EncodeTo(u *Unsubscribe, w io.Writer, res0 int, res1 error) bool {
+	b := vs.TraceBytes(0, 1)
+	n := specSubscribeLen(u.Topics, 0)
+	at := specBodyAt(n)
+	ts := u.Topics
+	return specOneWrite(res0, res1) && specPacketHead(b, TypeOfUnsubscribe, &u.Header, n) && specU16(b, at) == u.MessageID &&
+		(len(ts) < 1 || specTupleAt(b, at+2, ts[0], false)) &&
+		(len(ts) < 2 || specTupleAt(b, at+2+2+len(ts[0].Topic), ts[1], false))
+}
